@@ -192,3 +192,83 @@ def image_item(iid, data, wlog, bit_sectors=(), pad=0, do_remaster=True, expect=
         report['errors'] = list(report['errors']) + ['library_cannot_open']
     item['remaster'] = remaster(report, extra, data) if do_remaster else {'fixed1': [], 'fixed2': [], 'adv1': []}
     return item
+
+
+def inplace_kinds(before, after, iso_names):
+    """classify every byte that modify_file_in_place changed in the backing file (C17).
+    kinds: data (sectors of the target's content), dirrec (a directory record, in any ISO9660/Joliet
+    directory, that points at the target's content), udf_fe (a UDF file entry whose data is the
+    target's content), vd_size (volume space size field of a volume descriptor), vd_other,
+    other:<region kind>, length (file length changed)"""
+    kinds = set()
+    if len(before) != len(after):
+        kinds.add('length')
+    n = min(len(before), len(after))
+    if before[:n] == after[:n]:
+        return sorted(kinds)
+    rep = iso9660.decode(before, hash_limit=0)
+    target = [list(x.encode('latin-1')) for x in iso_names]
+    ext = None
+    size = 0
+    for f in rep['files'].get('iso', []):
+        if f['path'] == target:
+            ext, size = f['extent'], f['size']
+    data_secs = set()
+    recs = []   # (start, end) byte ranges of directory records pointing at the content
+    if isinstance(ext, int):
+        nsec = max(1, (size + 2047) // 2048)
+        data_secs = set(range(ext, ext + nsec))
+        for ns in rep['trees']:
+            for d in rep['trees'][ns]:
+                for rec in d['records']:
+                    if not (rec['flags'] & 2) and rec['extent'][0] == ext and isinstance(rec['size'][0], int) and rec['size'][0] > 0:
+                        start = rec['sector'] * 2048 + rec['off']
+                        recs.append((start, start + rec['reclen']))
+    fe_secs = set()
+    try:
+        from decoders import udf
+        urep = udf.decode(before)
+        for sec in udf_fe_sectors(urep, ext):
+            fe_secs.add(sec)
+    except Exception:  # pylint: disable=broad-except
+        pass
+    vd_secs = dict((vd['sector'], vd['type']) for vd in rep['vds'])
+    extra = extra_regions(before, rep)
+    for s in range(0, n, 2048):
+        ca = before[s:s + 2048]
+        cb = after[s:s + 2048]
+        if ca == cb:
+            continue
+        sec = s // 2048
+        for k in range(len(ca)):
+            if ca[k] == cb[k]:
+                continue
+            off = s + k
+            if sec in data_secs:
+                kinds.add('data')
+            elif any(a <= off < b for (a, b) in recs):
+                kinds.add('dirrec')
+            elif sec in fe_secs:
+                kinds.add('udf_fe')
+            elif sec in vd_secs:
+                kinds.add('vd_size' if (vd_secs[sec] in (1, 2) and 80 <= k < 88) else 'vd_other')
+            else:
+                kinds.add('other:' + _kind_at(rep, extra, off))
+    return sorted(kinds)
+
+
+def udf_fe_sectors(urep, data_extent):
+    """sectors of UDF file entries whose data starts at data_extent (schema of decoders/udf.py)"""
+    out = []
+    part = urep.get('partition') or {}
+    pstart = part.get('start') if isinstance(part, dict) else None
+    for fe in urep.get('fes', []):
+        if not isinstance(fe, dict):
+            continue
+        for ad in fe.get('ads', []):
+            pos = ad.get('pos') if isinstance(ad, dict) else (ad[1] if len(ad) > 1 else None)
+            if isinstance(pos, int) and isinstance(pstart, int) and pos + pstart == data_extent:
+                lb = fe.get('lb')
+                if isinstance(lb, int):
+                    out.append(lb + pstart)
+    return out
